@@ -68,15 +68,22 @@ Let ks_scale_l := AlgebraBasics.ksum_scale_l K k0 k1 kadd kmul ksub kopp kzero H
 (** every mode of the site is a mode of the Fock space *)
 Definition site_ok (l : L) (norb nspin : nat) : Prop := forall a z, a < norb -> z < nspin -> idx l a z < M.
 
-(** what a preset call delivers: it returns normally and prepare turns its terms into the matrix A *)
+(** what a preset call delivers: it returns normally; IndexHamiltonian::prepare turns the terms it pushed into the
+    matrix A (lattice with the sites [m] that holds only these terms); and when the terms are pushed into ANY
+    lattice (well-formed storage), the Hamiltonian of that lattice grows by exactly A *)
 Definition denotes (m : site_map L) (w : W) (A : mat) : Prop :=
   snd w = Done tt /\
-  exists h, prepare true (lattice_of m (fst w)) = Done h /\ meq (cp h) A.
+  (exists h, prepare true (lattice_of m (fst w)) = Done h /\ meq (cp h) A) /\
+  (forall st : Lattice.state L K,
+     PresetsPrepare.storage_ok K M L idx st -> PresetsPrepare.storage_bounded K L st ->
+     exists h h', prepare true st = Done h /\ prepare true (push_all L K (fst w) st) = Done h' /\
+       meq (cp h') (m_add (cp h) A)).
 
 Lemma denotes_of_wgs : forall m w A, wgs w A -> denotes m w A.
 Proof.
-  intros m w A H. split; [exact (proj1 H)|].
-  eapply wgs_denotes; [exact Hring|exact H].
+  intros m w A H. split; [exact (proj1 H)|]. split.
+  - eapply wgs_denotes; [exact Hring|exact H].
+  - intros st Hok Hb. eapply wgs_adds; [exact Hring|exact H|exact Hok|exact Hb].
 Qed.
 
 Ltac wstep := cbv beta;
@@ -849,7 +856,7 @@ Qed.
 Lemma denotes_hermitian : forall m w A, denotes m w A -> m_hermitian A ->
   forall h, prepare true (lattice_of m (fst w)) = Done h -> m_hermitian (cp h).
 Proof.
-  intros m w A (_ & h' & E & HA) H h Eh. rewrite E in Eh. inversion Eh; subst h'.
+  intros m w A (_ & (h' & E & HA) & _) H h Eh. rewrite E in Eh. inversion Eh; subst h'.
   eapply h_meq; [apply meq_sym; exact HA|exact H].
 Qed.
 
@@ -1064,8 +1071,8 @@ Proof.
   assert (Hl : forall a b : unit, leqb a b = true <-> a = b) by (intros [] []; unfold leqb; tauto).
   assert (F : Lattice.find_site unit leqb tt m = Some (1, 2)) by reflexivity.
   assert (S : site_ok 2 unit idx tt 1 2) by (intros a z _ Hz; exact Hz).
-  destruct (H 2 unit leqb idx m tt 1 k1 Hl F S) as (_ & h1 & E1 & D1).
-  destruct (addMagnetization_denotes_same_variant b 2 unit leqb idx m tt 1 k1 Hl F S) as (_ & h2 & E2 & D2).
+  destruct (H 2 unit leqb idx m tt 1 k1 Hl F S) as (_ & (h1 & E1 & D1) & _).
+  destruct (addMagnetization_denotes_same_variant b 2 unit leqb idx m tt 1 k1 Hl F S) as (_ & (h2 & E2 & D2) & _).
   rewrite E1 in E2. inversion E2; subst h2. clear E2.
   pose proof (D1 [false; true] [false; true] eq_refl eq_refl) as A1.
   pose proof (D2 [false; true] [false; true] eq_refl eq_refl) as A2.
